@@ -71,6 +71,8 @@ def gen_case(rng, nmax, valid_only=False):
         scale = 10.0 ** rng.integers(-3, 4)
         root = float(rng.normal()) * scale
         a = float(10.0 ** rng.uniform(-6, 6)) if rng.random() < 0.3 else float(rng.uniform(0.1, 5.0))
+        if rng.random() < 0.03:
+            a = float(10.0 ** rng.uniform(-200, -150))      # tiny slope: products of end values underflow, signs do not
         if not valid_only and rng.random() < 0.15:
             a = -a
         w1 = float(rng.uniform(0.01, 3.0)) * scale
@@ -251,8 +253,34 @@ def search(ctx, n, nmax):
                 except AssertionError:
                     pass
         ctx.case(('search', i), None)
+    # invalid brackets whose end values are both tiny (their product underflows to 0.0): the sign test must still reject them
+    for a, kind in ((1e-170, 2), (-1e-200, 2), (1e-180, 1), (3e-165, 2)):
+        for lane_count in (1, 3):
+            r = 0.25
+            ks, p1, p2, p3 = [kind], [a], [r], [0.0]
+            lo2, hi2 = [r + 0.5 * np.sign(a)], [r + 1.5 * np.sign(a)]           # f > 0 at both ends (no sign change)
+            if a < 0:
+                lo2, hi2 = hi2, lo2
+            for _ in range(lane_count - 1):                                      # valid ordinary lanes beside it
+                ks.append(0); p1.append(2.0); p2.append(-1.0); p3.append(0.0); lo2.append(0.0); hi2.append(1.0)
+            f = Lanes(ks, p1, p2, p3)
+            lo2, hi2 = np.array(lo2, dtype=float), np.array(hi2, dtype=float)
+            fl, fh = f(lo2)[0], f(hi2)[0]
+            assert fl > 0 and fh > 0 and fl * fh == 0.0
+            for which in ('bisect', 'chandrupatla'):
+                try:
+                    with np.errstate(all='ignore'):
+                        x = bisect(f, lo2.copy(), hi2.copy()) if which == 'bisect' else chandrupatla(f, lo2.copy(), hi2.copy())
+                    found += 1
+                    ctx.violation(f'search:{which}-accepts-invalid-bracket', f'{which} returned {np.asarray(x).tolist()} for a bracket whose end values '
+                                  f'{fl!r}, {fh!r} are both positive (their product underflows to 0.0) in lane 0',
+                                  {'lanes': f.describe(), 'xmin': lo2.tolist(), 'xmax': hi2.tolist(), 'lane': 0,
+                                   'repro': repro(f, lo2, hi2, which).replace("assert np.all(np.isfinite(x))", "raise SystemExit('returned a value for an invalid bracket')")})
+                except AssertionError:
+                    pass
+            ctx.case(('search', 'tiny-invalid', a, lane_count), None)
     ctx.rule('search: valid brackets only; per lane |x-root| <= tolerance of the property (bisect 1e-8 in x, chandrupatla 1e-9 of the width or exact zero), '
-             'inside the bracket, finite; scalar chandrupatla = one-element vector; brackets without sign change rejected')
+             'inside the bracket, finite; scalar chandrupatla = one-element vector; brackets without sign change rejected, also when both end values are so small that their product underflows')
     return found
 
 
